@@ -397,6 +397,19 @@ void ExecImpl::op_unwind(const Op&) {
 void ExecImpl::op_assign_seq(const Op& op) {
   int id = pick(M.live_seqs(), op.a[0]);
   if (id < 0) return;
+  if (!shadow && (op.a[3] & 1) && !moved_from_seqs.empty()) {
+    // a moved-from sequence object is assigned to again (std::swap, or a sequence handed back to where it came from):
+    // the live sequence moves house, nothing is reported, the model does not change
+    Obs o; obs_stack.push_back(&o);
+    *moved_from_seqs.back() = std::move(*rseqs[static_cast<size_t>(id)]);
+    obs_stack.pop_back();
+    std::swap(moved_from_seqs.back(), rseqs[static_cast<size_t>(id)]);
+    ++st.f_relocate; ++st.p_seq_handed_back;
+    nontriv("C14");
+    std::vector<XRep> none;
+    check_reports(o, none, false, "move assignment to a moved-from sequence object", "C06,C14");
+    return;
+  }
   MSeq& s = M.seqs[id];
   std::vector<XRep> want;
   if (s.list.empty() && s.tainted) { XRep x; x.kind = RK_SEQNOTMET; x.fatal = false; x.optional = true; x.any_of_m = true; want.push_back(x); }
